@@ -579,6 +579,90 @@ fn history_time_clock(e: &mut Eng) {
 
 /// Extreme clock values: every step whose specified arithmetic (t - now, now + offset) fits in i64
 /// must work; steps that would overflow by specification end the case.
+/// A history defined on all of i64 whose value is the queried time itself (exact, as i64).
+struct EchoAll;
+impl History<i64, E> for EchoAll {
+    fn get(&self, time: Time) -> Option<Datum<i64>> {
+        Some(Datum::new(Time(time.0 ^ 0x55), time.0))
+    }
+}
+impl Updatable<E> for EchoAll {
+    fn update(&mut self) -> NothingOrError<E> {
+        Ok(())
+    }
+}
+
+/// Offsets at the edge of i64: every (clock, argument) pair of an alphabet with both i64 extremes
+/// and their neighbours, for each way of fixing the offset (new_custom_start, set_time,
+/// new_custom_delta, set_delta). Whenever the specified arithmetic (argument - now, now + offset;
+/// judged in i128) fits in i64, get() must return the history's value at exactly that instant - the
+/// history is defined on all of i64 and resolves single nanoseconds - restamped with now, also after
+/// the clock moved on by 1 and by 3 ns.
+fn history_extreme_offsets(e: &mut Eng) {
+    const A: [i64; 11] = [i64::MIN, i64::MIN + 1, i64::MIN + 2, -2, -1, 0, 1, 2, i64::MAX - 2, i64::MAX - 1, i64::MAX];
+    let fits = |x: i128| x >= i64::MIN as i128 && x <= i64::MAX as i128;
+    for &c0 in &A {
+        for &a in &A {
+            for how in 0..4usize {
+                // offset fixed by this (clock, argument, way): None = the specified arithmetic overflows
+                let offset: Option<i64> = match how {
+                    0 | 1 => {
+                        let o = a as i128 - c0 as i128;
+                        if fits(o) { Some(o as i64) } else { None }
+                    }
+                    _ => Some(a),
+                };
+                let offset = match offset {
+                    Some(o) => o,
+                    None => continue,
+                };
+                e.executions += 1;
+                e.states += 1;
+                e.nontrivial += 1;
+                let r = guard(|| -> Result<(), String> {
+                    let mut hist = EchoAll;
+                    let clock = rc(ScrTime::new(Ok(Time(c0))));
+                    let mut g: GetterFromHistory<i64, ScrTime, E> = match how {
+                        0 => GetterFromHistory::new_custom_start(&mut hist, rf(&clock), Time(a)).map_err(|er| format!("constructor failed: {:?}", er))?,
+                        2 => GetterFromHistory::new_custom_delta(&mut hist, rf(&clock), Time(a)),
+                        _ => GetterFromHistory::new_no_delta(&mut hist, rf(&clock)),
+                    };
+                    if how == 1 {
+                        g.set_time(Time(a)).map_err(|er| format!("set_time failed: {:?}", er))?;
+                    }
+                    if how == 3 {
+                        g.set_delta(Time(a));
+                    }
+                    for step in [0i64, 1, 3] {
+                        let now = match c0.checked_add(step) {
+                            Some(n) => n,
+                            None => break,
+                        };
+                        let q = now as i128 + offset as i128;
+                        if !fits(q) {
+                            break;
+                        }
+                        clock.borrow_mut().next = Ok(Time(now));
+                        match g.get() {
+                            Ok(Some(d)) if d.time == Time(now) && d.value == q as i64 => {}
+                            other => return Err(format!("with the clock at {} get() = {:?}, expected the history's value at {} restamped with {}", now, other, q, now)),
+                        }
+                    }
+                    Ok(())
+                });
+                e.transitions += 3;
+                e.checks += 3;
+                let names = ["new_custom_start(a)", "new_no_delta then set_time(a)", "new_custom_delta(a)", "new_no_delta then set_delta(a)"];
+                match r {
+                    Ok(Ok(())) => e.outcome(h64(&(c0, a, how))),
+                    Ok(Err(m)) => e.violation("history-adapter:extreme-offset:value", 2, || format!("{} with a = {} and the clock at {} (offset {} fits in i64): {}", names[how], a, c0, offset, m)),
+                    Err(m) => e.violation("history-adapter:extreme-offset:panic", 2, || format!("{} with a = {} and the clock at {} (offset {} fits in i64) panicked: {}", names[how], a, c0, offset, m)),
+                }
+            }
+        }
+    }
+}
+
 fn history_extreme_clocks(e: &mut Eng) {
     #[derive(Clone, Copy, Debug)]
     enum X {
@@ -818,6 +902,8 @@ pub fn run(ctx: &Ctx) -> Vec<Eng> {
     history_time_clock(&mut e2);
     e2.bounds.push_str("; plus the library's own `Time` as the time getter: 4 constructors x 3 construction clocks x all 8^4 sequences over {clock += 5/-3/1000, set_delta(-7/100), set_time(50/0), get}");
     history_extreme_clocks(&mut e2);
+    history_extreme_offsets(&mut e2);
+    e2.notes.push("extreme offsets: 11 x 11 (clock, argument) pairs over {MIN, MIN+1, MIN+2, -2..2, MAX-2, MAX-1, MAX} x {new_custom_start, set_time, new_custom_delta, set_delta} with a history defined on all of i64 whose value is the queried instant: whenever argument - now and now + offset fit in i64 (judged in i128), get() returns exactly that instant's value restamped with now, also 1 and 3 ns later".into());
     e2.bounds.push_str("; plus clocks at i64::MIN, MIN+1, -1, MAX-1, MAX x 2 constructors x all 7^3 sequences of set_time/set_delta/get (steps that overflow by specification end the case)");
     history_case(4, 3, &[], &mut e2);
     e2.executions += 1;
